@@ -387,8 +387,47 @@ def grammar_events_scenario(h: Harness, rng):
         h.count(f"grammar-events:other-grammar:{n}")
 
 
+def tight_stack_budget_scenario(h: Harness, rng):
+    """a stack representation configured so tightly (few genes, a small failure allowance) that many genomes do NOT map: whether a
+    genome maps, and to what, depends on the genome and the grammar -- not on how many other mappings failed before.  Several genomes,
+    three interleaved rounds, every genome the same outcome in every round"""
+    from linear import Stack, safe
+    from props import steps_common as sc
+    from geneticengine.grammar.grammar import extract_grammar
+    g = extract_grammar([sc.Leaf, sc.Node], sc.Root)
+    for trial in range(h.n(12, 120)):
+        gl, fl = rng.choice([(16, 2), (24, 3), (32, 5), (64, 10), (48, 4), (20, 8)])
+        r = NativeRandomSource(rng.randrange(10**6))
+        rep = Stack(g, gene_length=gl, failures_limit=fl)
+        genos = [rep.create_genotype(r) for _ in range(7)]
+        rounds = []
+        for rnd in range(3):
+            order = list(range(len(genos)))
+            if rnd:
+                rng.shuffle(order)
+            out = {}
+            for j in order:
+                st, p = safe(lambda: rep.genotype_to_phenotype(genos[j]))
+                out[j] = (st, repr(p))
+            rounds.append(out)
+        failed = sum(1 for j in rounds[0] if rounds[0][j][0] != "ok")
+        h.count("tight-stack-budget:genomes", len(genos))
+        h.count("tight-stack-budget:genomes-that-do-not-map", failed)
+        h.seen(f"tight-stack:{trial}:{gl}:{fl}", nontrivial=0 < failed < len(genos))
+        for j in range(len(genos)):
+            outs = [rnd[j] for rnd in rounds]
+            if any(o != outs[0] for o in outs):
+                k = next(i for i, o in enumerate(outs) if o != outs[0])
+                h.fail("Stack.genotype_to_phenotype", "same-genotype-different-program",
+                       f"stack representation with gene_length={gl}, failures_limit={fl}: genome #{j} gave {outs[0][0]}:{outs[0][1][:80]} in round 1 and "
+                       f"{outs[k][0]}:{outs[k][1][:80]} in round {k + 1} ({failed} of {len(genos)} genomes did not map in round 1; the rounds map all genomes, in another order)",
+                       [trial, gl, fl, j])
+                break
+
+
 def run(h: Harness):
     rng = h.rng
+    tight_stack_budget_scenario(h, rng)
     decider_state_scenario(h, rng)
     persistent_handler_scenario(h, rng)
     short_lived_genotypes_scenario(h, rng)
